@@ -21,6 +21,7 @@ ASSUMPTIONS = [
     "ruff is replaced by an identity stand-in when the plugin formats its output",
 ]
 FLOORS = {"quick": {"evaluations": 2000, "len_checked": 6000}, "thorough": {"evaluations": 100000, "len_checked": 300000}}
+ANCHORS = ['Message.__len__', '_len_single', '_len_preprocessed_single', 'size_varint', 'Message.dump']
 CONTRACTS = ["bytes"]
 
 
